@@ -256,14 +256,15 @@ def bookAnswer (cfg : Cfg) (fl : Faults) (now : Nat) (tag : Tag) (tbl : List MSe
           else (monUpd tbl n (fun e => if e.posts == 0 then { e with idleSince := now } else e), pend)
         else (tbl, pend)
     | .postb ref u =>
-      -- a POST whose body is still on its way is in progress from the arrival of its headers
+      -- a POST whose body is still on its way is in progress from the arrival of its headers (booked for
+      -- every known session the user is entitled to: for one that is going away the count is never read)
       match ref.name with
       | none => (tbl, pend)
       | some n =>
-        let entitledLive := match monFind tbl n with
-          | some e => e.life == .live && entitled e.owner u
+        let admitted := match monFind tbl n with
+          | some e => entitled e.owner u
           | none => false
-        if entitledLive && st == .pending then (monUpd tbl n (fun e => { e with posts := e.posts + 1 }), reg n)
+        if admitted && st == .pending then (monUpd tbl n (fun e => { e with posts := e.posts + 1 }), reg n)
         else (tbl, pend)
     | .delete ref u =>
       match ref.name with
